@@ -348,8 +348,10 @@ def run_check(pid, tier, seed, replay=None):
         ev['coverage'].update(prop.extra_evidence(merged))
     except Exception:
         merged['errors'].append(traceback.format_exc())
-    os.makedirs(os.path.join(VERIF, 'evidence'), exist_ok=True)
-    json.dump(ev, open(os.path.join(VERIF, 'evidence', pid + '.json'), 'w'), indent=1, sort_keys=True, default=str)
+    # runs against a scratch copy (self-test with a seeded change) must not overwrite the evidence of /repo
+    evdir = os.path.join(VERIF, 'evidence') if os.path.realpath(build.REPO) == '/repo' else os.path.join(VERIF, 'target', 'alt-evidence')
+    os.makedirs(evdir, exist_ok=True)
+    json.dump(ev, open(os.path.join(evdir, pid + '.json'), 'w'), indent=1, sort_keys=True, default=str)
     print('%s %s: %d cases, %d distinct non-trivial, %d violations, %.1fs' % (pid, tier, merged['evaluations'],
                                                                             len(merged['nontrivial']), len(violations), wall))
     if violations:
